@@ -46,5 +46,36 @@ LookupOrdered == \A kind \in GKinds : LET r == GroupsOf(groups, kind) IN
                    /\ Len(r) = Cardinality({i \in 1..Len(groups) : groups[i].tag = kind})
 OneGroupPerKindWhenBuilt == init = "empty" => \A kind \in GKinds : Len(GroupsOf(groups, kind)) <= 1
 
+(* ---- design mutants (self-test): each must be refuted ---- *)
+LastIdx(gs, kind) == IF \E i \in 1..Len(gs) : gs[i].tag = kind
+                     THEN CHOOSE i \in 1..Len(gs) : gs[i].tag = kind /\ \A j \in (i+1)..Len(gs) : gs[j].tag # kind
+                     ELSE 0
+AddMut(mode, gs, kind, name, v) ==
+  CASE mode = "append-always" -> Append(gs, G(kind, (name :> v)))
+    [] mode = "last-group" -> (LET i == LastIdx(gs, kind) IN
+                               IF i > 0 THEN [gs EXCEPT ![i].attrs = Put(@, name, v)] ELSE Append(gs, G(kind, (name :> v))))
+    [] mode = "keep-first" -> (LET i == FirstIdx(gs, kind) IN
+                               IF i > 0 THEN (IF name \in DOMAIN gs[i].attrs THEN gs ELSE [gs EXCEPT ![i].attrs = Put(@, name, v)])
+                               ELSE Append(gs, G(kind, (name :> v))))
+    [] mode = "prepend-new" -> (LET i == FirstIdx(gs, kind) IN
+                               IF i > 0 THEN [gs EXCEPT ![i].attrs = Put(@, name, v)] ELSE <<G(kind, (name :> v))>> \o gs)
+    [] OTHER -> AddOp(gs, kind, name, v)
+RECURSIVE FoldMut(_,_,_,_)
+FoldMut(mode, gs, adds, i) == IF i > Len(adds) THEN gs
+                              ELSE FoldMut(mode, AddMut(mode, gs, adds[i].kind, adds[i].name, adds[i].v), adds, i + 1)
+MutHolds(mode) == LET g == FoldMut(mode, InitMsgs[init], hist, 1) IN
+                  /\ (init = "empty" => g = Declared(hist))
+                  /\ g = groups
+Mut_AppendAlways == MutHolds("append-always")
+Mut_LastGroup    == MutHolds("last-group")
+Mut_KeepFirst    == MutHolds("keep-first")
+Mut_PrependNew   == MutHolds("prepend-new")
+Mut_None         == MutHolds("none")                           \* control: holds
+GroupsOfFirstRun(gs, kind) ==          \* lookup mutant: only the first run of adjacent groups of the kind
+  LET i == FirstIdx(gs, kind) IN
+  IF i = 0 THEN <<>>
+  ELSE LET e == CHOOSE e \in i..Len(gs) : (\A j \in i..e : gs[j].tag = kind) /\ (e = Len(gs) \/ gs[e+1].tag # kind)
+       IN SubSeq(gs, i, e)
+Mut_LookupFirstRun == \A kind \in GKinds : GroupsOfFirstRun(groups, kind) = GroupsOf(groups, kind)
 Gen == PrintT(<<"CASE", ToJson([init |-> InitMsgs[init], adds |-> hist, groups |-> groups])>>)
 =============================================================================
